@@ -12,3 +12,6 @@ BOUNDS = {'quick': 'glob: every rule pattern of <=3 characters over {a,b,.,*,+,(
           'thorough': 'glob with patterns <=4 and categories <=5'}
 OUTSIDE = 'longer rule lists / patterns / categories; non-ASCII categories; rule lines longer than the string capacity'
 ASSUMPTIONS = ['QRegularExpression is the regex model of qtmodel/qm_regex_impl.h (validated against the real engine by vf conform on every expression of the repository)']
+
+for _j in JOBS:
+    _j.setdefault('mem_est', 5)
